@@ -24,12 +24,15 @@ def pkgstatus(out):
 subprocess.check_call(['rsync', '-a', '--exclude', '.git', '/repo/', scratch + '/'])
 res = {'seed': os.path.basename(seed), 'property': meta.get('property')}
 try:
-    demo_dest = meta.get('demo_file_dest')
+    demo_dest = (meta.get('demo_file_dest') or '').split(' (')[0].strip()
+    if demo_dest.endswith('/') or demo_dest in ('', '.'):
+        demo_dest = ''
+
     demo_cmd = meta.get('demo_cmd') or open(seed + '/demo_cmd.txt').read().strip().splitlines()[-1]
     demo_files = [f for f in os.listdir(seed) if f not in ('patch.diff', 'meta.json', 'demo_cmd.txt', 'README', 'README.md', 'unit_with_patch.txt') and not f.endswith('.txt')]
     def place_demo():
         for f in demo_files:
-            dest = demo_dest if (demo_dest and len(demo_files) == 1) else os.path.join(os.path.dirname(demo_dest or ''), f)
+            dest = demo_dest if (demo_dest and len(demo_files) == 1 and os.path.splitext(demo_dest)[1] == os.path.splitext(f)[1]) else os.path.join(os.path.dirname(demo_dest or ''), f)
             os.makedirs(os.path.dirname(os.path.join(scratch, dest)), exist_ok=True)
             shutil.copy(os.path.join(seed, f), os.path.join(scratch, dest))
             yield os.path.join(scratch, dest)
